@@ -264,4 +264,33 @@ PROPS.update({
                     "the extractor computes, for every pooled type, the fields that neither reset() nor the pool's release function assigns"],
         "assumptions": ["an object is released only by its owner and not used afterwards (API contract; the library's own releases are tied by event sequences)"],
     },
+    "C05": {
+        "level": "proof",
+        "audit_imports": ["SpecVerif.Props.C05", "SpecVerif.TiesLang", "SpecVerif.TiesMpx"],
+        "lean_targets": ["SpecVerif.Props.C05", "SpecVerif.TiesLang", "SpecVerif.TiesMpx"],
+        "go_cmds": ["langgen"],
+        "theorems": ["SpecVerif.C05." + t for t in ["sval_roundtrip", "sval_delim", "generated_roundtrip", "generated_absent"]] +
+                    ["SpecVerif.C01.msg_field_found", "SpecVerif.C01.list_roundtrip", "SpecVerif.C01.parse_exact"],
+        "ties": ["SpecVerif.TiesLang.generator_scalar_tables"] + ev("gen_typeWriteFunc", "gen_typeDecodeFunc", "gen_typeName", "gen_message_field",
+                   "gen_message_writer_field", "gen_struct_decode", "gen_struct_encode", "gen_enum_encode", "gen_enum_decode", "gen_file", "gen_importPackage"),
+        "streams": [scen("c05", "{bin}/langgen", "c05", "{seed}", "{tier}", timeout=1500)],
+        "flag": MPX_FLAG,
+        "rule": "one evaluation = one bundle of 1-3 schema packages (semantic generator + a coverage block per package: every field kind and every list element kind, local/imported/self-referencing types with and without alias, keyword- and underscore-named fields, tags 1,127,128,255,256,65534,65535, nested structs, enums to MaxInt32, services with every method shape) compiled, generated and exercised by emitted Go tests: generated writer -> generated reader (also after Parse/OpenErr/Clone/Merge), generated writer -> dynamic reader by tag and wire type, dynamic writer -> generated reader with byte-identical output, struct encode/decode incl. prefixed input, enums, services over a loopback rpc server, three regenerations byte-compared; 30k-370k comparisons per bundle",
+        "trusted": ["the Go toolchain compiles and runs the emitted tests; the harness' own resolved model of the schema (sabotage switches verify each oracle reports)",
+                    "the generator's templates are tied by event sequences and the kind tables (generator_scalar_tables); the emitted Go text beyond those tables is exercised, not modelled"],
+        "assumptions": ["names map to distinct Go identifiers (the property's precondition; see known finding F40 of C14)",
+                        "float32 is outside the model-level theorem (see C10.float32_roundtrip_partial); the run-time tests cover it"],
+    },
+    "C04": mpx_prop("C04", ["no_foreign_data", "result_is_own", "ok_only_if_sent", "no_response_no_ok", "handler_once", "status_roundtrip"],
+                    ev("rpc_client_Receive", "rpc_server_Receive", "conn_receiveOpen", "conn_receiveMessage", "conn_receiveData", "conn_receiveClose",
+                       "channel_Send", "channel_SendAndClose", "channel_ReceiveAsync", "pool_rpc_channelState_reset", "pool_rpc_requestState_reset",
+                       "pool_rpc_serverChannelState_reset"),
+                    [scen("c04", "{bin}/rpcscen", "c04", "{seed}", "{tier}")],
+                    ["rpcscen"],
+                    extra={"audit_imports": ["SpecVerif.Props.C04", "SpecVerif.TiesMpx"],
+                           "lean_targets": ["SpecVerif.Props.C04", "SpecVerif.TiesMpx"],
+                           "rule": "one evaluation = one run: an rpc server whose handler takes its behaviour from the request payload (OK, application status incl. empty/unicode/400-character codes, panic, delays, streaming in three orderings, early end) and 1-4 rpc clients with MaxConns 1-4 issuing N concurrent calls of all kinds (unary, oneway, client-, server- and bidirectional streaming; callers that abandon, cancel or only take the response) from G goroutines, each with a unique call id; the history (what every caller observed, what every handler invocation did) is checked against the sequential specification keyed by call id; run modes: plain, seeded yields, client kill, proxy kill, proxy cut at a byte offset, server stop, client close, and a raw mpx server sending 16 reply variants (4 controls, 12 malformed)",
+                           "assumptions": ["one channel per call and channel ids unique (128-bit random ids; duplicates are refused: handler_once)",
+                                           "delivery per channel as proved in C03; the response encoding as proved in C01/C05",
+                                           "callers do not free a call while another goroutine is blocked in its Receive (the scenario c04free, not registered, demonstrates what happens then: see DESIGN.md §7)"]}),
 })
